@@ -30,7 +30,7 @@ ASSUME = ["ray stand-in replaces the executor", "the Epoch row that saveDatabase
           "integer calendar arithmetic (refs/timeref) for timestamps"]
 SHARDS = {"quick": 8, "thorough": 16}
 BUDGET_S = {"quick": 100, "thorough": 1300}
-DECIDING = ["epochs", "cardinality", "referential", "readback", "atomicity"]
+DECIDING = ["epochs", "cardinality", "referential", "readback", "readback_orm", "atomicity"]
 MANIFEST = {
     "technique": "runtime monitoring: capture at saveDatabaseOutput + offline SQL audit of the produced SQLite file; SQL fault injection enumerating the failing statement of a step's transaction",
     "level_text": "held on every executed configuration/history: exact cardinalities per output epoch, unique increasing epochs with matching timestamps, no dangling references, bit-exact read-back; a step's rows are all-or-nothing under a fault at every enumerated statement index",
@@ -96,6 +96,10 @@ def build_cfg(case):
                 evs.append({"scope": "observation_generation", "scope_instance_id": sdesc["id"], "start_time": sk.iso(t),
                             "end_time": sk.iso(t + timedelta(seconds=e["len"] * net["step"])), "event_type": "sensor_time_bias", "applied_bias": e["bias"]})
     cfg = netkit.net_cfg(net, truth_only=not case["estimation"], output_step=case["out"], events=evs)
+    if case.get("gpf"):
+        # the genetic particle filter as the tracking filter (its own filter-step table; records a step at predict and at update)
+        cfg["estimation"]["sequential_filter"] = {"name": "genetic_particle_filter", "dynamics_model": "two_body", "save_filter_steps": True,
+                                                  "population_size": 30, "num_purge": 4, "num_keep": 4, "num_mutate": 8}
     cfg["time"]["stop_timestamp"] = sk.iso(start + timedelta(seconds=case["span_steps"] * net["step"]))
     if case.get("second_engine"):
         e1 = cfg["engines"][0]
@@ -171,6 +175,29 @@ def execute(case, fault=None):
                 produced["miss"].extend((k, float(m.julian_date), int(m.sensor_id), int(m.target_id)) for m in eng.missed_observations)
 
     app.stepForward = stepped
+    # every filter step an estimate agent records (values the filter holds at that moment): the library's own record
+    # classes must hand them back unchanged after the run (ORM read-back)
+    from resonaate.agents.estimate_agent import EstimateAgent
+
+    fsteps = []
+    orig_sfs = EstimateAgent._saveFilterStep  # noqa: SLF001
+
+    def _sfs(self):
+        f = self.nominal_filter
+        try:
+            rec = {"jd": float(self.julian_date_epoch), "tid": int(self.simulation_id), "k": int(round(float(self.time) / net["step"]))}
+            rec["particle"] = hasattr(f, "population")
+            for name in (("population", "scores", "particle_residuals") if rec["particle"] else ("innovation", "q_matrix", "cross_cvr", "innov_cvr", "kalman_gain")):
+                v = getattr(f, name, None)
+                rec[name] = None if v is None else np.array(v, dtype=float)
+            nis = None if rec["particle"] else getattr(f, "nis", None)
+            rec["nis"] = None if nis is None or np.asarray(nis).size == 0 else float(np.asarray(nis).ravel()[0])
+            fsteps.append(rec)
+        except Exception as e:  # noqa: BLE001  - a capture problem must not change the run
+            fsteps.append({"capture_error": repr(e)[:200]})
+        return orig_sfs(self)
+
+    EstimateAgent._saveFilterStep = _sfs  # noqa: SLF001
     # the initial save happened in the constructor: reconstruct its capture
     start = datetime.fromisoformat(net["start"])
 
@@ -197,11 +224,12 @@ def execute(case, fault=None):
         err = (type(e).__name__, f"{type(e).__name__}: {str(e)[:200]} :: {traceback.format_exc()[-500:]}")
         steps_done = int(round(float(app.clock.time) / net["step"]))
     finally:
+        EstimateAgent._saveFilterStep = orig_sfs  # noqa: SLF001
         try:
             sa_event.remove(app.database.engine, "before_cursor_execute", before_exec)
         except Exception:  # noqa: BLE001
             pass
-    hist = {"steps_done": steps_done, "fired": state["fired"], "stmts_in_bulk": state["stmts_in_bulk"], "produced": produced,
+    hist = {"steps_done": steps_done, "fired": state["fired"], "stmts_in_bulk": state["stmts_in_bulk"], "produced": produced, "fsteps": fsteps,
             "alive_targets_final": sorted(int(i) for i in app.target_agents), "sensors": sorted(int(i) for i in app.sensor_agents)}
     return b, caps, hist, err
 
@@ -299,6 +327,8 @@ def audit(ctx, case, b, caps, hist, wit, fault=None):
     for table, cols in (("observations", "julian_date, sensor_id, target_id"), ("missed_observations", "julian_date, sensor_id, target_id"), ("tasks", "julian_date, sensor_id, target_id"),
                         ("truth_ephemerides", "julian_date, agent_id"), ("estimate_ephemerides", "julian_date, agent_id"), ("filterstep", "julian_date, target_id"),
                         ("detected_maneuvers", "julian_date, target_id")):
+        if table == "filterstep" and case.get("gpf"):
+            continue  # a particle filter records its step twice per observed epoch (prediction and update): not a duplicate
         dup = cur.execute(f"select {cols}, count(*) c from {table} group by {cols} having c > 1").fetchall()  # noqa: S608
         multi = net["policy"] == "AllVisibleDecision" and table in ("observations",)
         ctx.check(not dup, f"duplicate-rows-{table}" + ("-multi-job-sensor" if multi else ""), f"{len(dup)} duplicated key(s) in {table}, e.g. {dup[:2]} ({net['policy']})", wit, mon="cardinality")
@@ -313,6 +343,9 @@ def audit(ctx, case, b, caps, hist, wit, fault=None):
                       f"{table}: the engines produced {len(want)} record(s) up to the last output epoch (step {last_k}), the database holds {len(got)}; "
                       f"missing {len([w_ for w_ in want if w_ not in got])}, unexpected {len([g_ for g_ in got if g_ not in want])} (physics {net['step']}s, output {case['out']}s)",
                       wit, mon="cardinality")
+    # ---- read-back through the library's own record classes ---------------------------------------------------
+    if fault is None:
+        orm_readback(ctx, case, b, committed, hist, wit)
     # ---- atomicity -----------------------------------------------------------------------------
     if fault is not None and hist["fired"]:
         for c in failed:
@@ -332,6 +365,81 @@ def audit(ctx, case, b, caps, hist, wit, fault=None):
             ctx.check(not left, "partial-step-committed-other-tables", f"the save of step t={c['time']}s died at statement {fault[1]} ({hist['fired']}) but rows of that step remain in {left}", wit, mon="atomicity")
     con.close()
     return len(committed)
+
+
+def _same_bits(a, b):
+    a = np.asarray(a, dtype=float)
+    b = np.asarray(b, dtype=float)
+    return a.shape == b.shape and a.tobytes() == b.tobytes()
+
+
+def orm_readback(ctx, case, b, committed, hist, wit):
+    """What a user of the library reads: TruthEphemeris.eci, EstimateEphemeris.eci / .covariance, the filter-step accessors."""
+    from resonaate.data.ephemeris import EstimateEphemeris, TruthEphemeris
+    from resonaate.data.filter_step import ParticleFilterStep, SequentialFilterStep
+    from sqlalchemy.orm import Query
+
+    db = b.app.database
+    by_cap = {c["jd"]: c for c in committed}
+    for row in db.getData(Query(TruthEphemeris)):
+        c = by_cap.get(float(row.julian_date))
+        mem = None if c is None else c["truth"].get(int(row.agent_id))
+        if mem is None:
+            continue
+        ctx.check(_same_bits(row.eci, mem), "truth-readback-orm", f"TruthEphemeris.eci of agent {row.agent_id} at t={c['time']}s differs from the state the simulation held", wit, mon="readback_orm")
+    if case["estimation"]:
+        for row in db.getData(Query(EstimateEphemeris)):
+            c = by_cap.get(float(row.julian_date))
+            mem = None if c is None else c["est"].get(int(row.agent_id))
+            if mem is None:
+                continue
+            ctx.check(_same_bits(row.eci, mem[0]), "estimate-readback-orm", f"EstimateEphemeris.eci of target {row.agent_id} at t={c['time']}s differs from the estimate the simulation held", wit, mon="readback_orm")
+            ctx.check(_same_bits(row.covariance, mem[1]), "covariance-readback-orm", f"EstimateEphemeris.covariance of target {row.agent_id} at t={c['time']}s differs from the covariance the simulation held", wit, mon="readback_orm")
+    if case["net"].get("save_filter_steps") and committed:
+        net = case["net"]
+        last_k = int(round(committed[-1]["time"] / net["step"]))
+        caps = [f for f in hist["fsteps"] if "capture_error" not in f]
+        ctx.count("filter_step_capture_errors", len(hist["fsteps"]) - len(caps))
+        want = {}
+        for f in caps:
+            if f["k"] <= last_k:
+                want.setdefault((f["jd"], f["tid"]), []).append(f)
+        rows = db.getData(Query(ParticleFilterStep if case.get("gpf") else SequentialFilterStep))
+        got = {}
+        for r in sorted(rows, key=lambda r_: r_.id):
+            got.setdefault((float(r.julian_date), int(r.target_id)), []).append(r)
+        ctx.count("filter_steps_recorded", sum(len(v) for v in want.values()))
+        ctx.check(sorted(want) == sorted(got) and all(len(want[k_]) == len(got[k_]) for k_ in want), "filterstep-rows-ne-recorded",
+                  f"the estimate agents recorded {sum(len(v) for v in want.values())} filter step(s) up to the last output epoch, the database holds {sum(len(v) for v in got.values())} "
+                  f"(missing {len(set(want) - set(got))}, unexpected {len(set(got) - set(want))}; physics {net['step']}s, output {case['out']}s)", wit, mon="cardinality")
+        # a particle filter records a step when it predicts and again when it updates: rows of one (epoch, target) are paired in recording order
+        for key in want:
+            if len(want[key]) != len(got.get(key, [])):
+                continue
+            for f, r in zip(want[key], got[key]):
+                _readback_filter_step(ctx, key, f, r, wit)
+
+
+def _readback_filter_step(ctx, key, f, r, wit):
+    bad = []
+    if f["particle"]:
+        for name, acc in (("population", "particles"), ("scores", "scores"), ("particle_residuals", "particle_residuals")):
+            if f[name] is not None and not _same_bits(getattr(r, acc), f[name]):
+                bad.append(acc)
+        ctx.count("particle_filter_steps_read_back")
+        ctx.check(not bad, "particle-filterstep-readback-orm", f"particle filter step of target {key[1]} at jd {key[0]!r}: {bad} read back through ParticleFilterStep differ from what the filter held when the step was recorded", wit, mon="readback_orm")
+        return
+    for name in ("q_matrix", "cross_cvr", "innov_cvr", "kalman_gain"):
+        if f[name] is not None and not _same_bits(getattr(r, name), f[name]):
+            bad.append(name)
+    if f["nis"] is not None and not (r.nis is not None and _bits(r.nis) == _bits(f["nis"])):
+        bad.append("nis")
+    inn = f["innovation"]
+    if inn is not None and inn.size in (2, 4):
+        stored = [r.measurement_residual_azimuth, r.measurement_residual_elevation] + ([r.measurement_residual_range, r.measurement_residual_range_rate] if inn.size == 4 else [])
+        if any(v is None for v in stored) or not _same_bits(stored, inn.ravel()):
+            bad.append("innovation")
+    ctx.check(not bad, "filterstep-readback-orm", f"filter step of target {key[1]} at jd {key[0]!r}: {bad} read back through SequentialFilterStep differ from what the filter held when the step was recorded", wit, mon="readback_orm")
 
 
 def eval_case(ctx, case):
@@ -388,6 +496,19 @@ def run(ctx):
                 case = gen_case(rng)
             case["events"] = [e_ for e_ in case["events"] if e_["kind"] != "time_bias"] + [{"kind": "time_bias", "k": 0, "shift": 1, "len": sum(case["plan"]) + 2, "bias": rng.choice([0.5, -0.5]), "all": True}]
             ctx.count("cases_with_all_sensor_clocks_biased")
+        if i == 2:
+            # once per shard: the particle filter tracks the targets and its filter steps are stored
+            for _ in range(20):
+                if case["estimation"] and not case["second_engine"]:
+                    break
+                case = gen_case(rng)
+            case["gpf"] = True
+            case["net"]["save_filter_steps"] = True
+            case["net"]["maneuver_detection"] = None
+            case["plan"] = case["plan"][:2]
+            case["span_steps"] = min(case["span_steps"], sum(case["plan"]) + 1)
+            case["events"] = [e_ for e_ in case["events"] if e_["kind"] != "impulse" and e_["k"] <= sum(case["plan"])]
+            ctx.count("cases_with_particle_filter")
         nout = eval_case(ctx, case)
         ctx.case(("a", case["net"]["start"], case["net"]["seed"], tuple(case["plan"]), case["out"]), nontrivial=nout >= 2,
                  sample={"physics": case["net"]["step"], "output": case["out"], "plan": case["plan"], "span_steps": case["span_steps"], "estimation": case["estimation"],
